@@ -76,7 +76,7 @@ def expTraceDetails : List String := [
 
 def expGetLineNumber : List String := [
   "char* get_line_number (const char *p, const program_t * progp) {",
-  "static char buf[256]",
+  "static char buf[PATH_MAX + 32]",
   "int i",
   "char *file = \"???\"",
   "int line = -1",
@@ -99,7 +99,7 @@ def expGetLineNumber : List String := [
   "return buf",
   "if (!file)",
   "file = progp->name",
-  "sprintf (buf, \"/%s:%d\", file, line)",
+  "snprintf (buf, sizeof buf, \"/%s:%d\", file, line)",
   "return buf"]
 
 def expPopControl : List String := [
